@@ -82,6 +82,13 @@ def run_case(c, d):
     vargs = (['-u', c['unit']] if c['unit'] else []) + (['-z'] if c['z'] else [])
     p = subprocess.run([sys.executable, '-m', 'line_profiler'] + vargs + [lprof], capture_output=True, text=True, env=env, cwd=d)
     out['viewer_cli'] = p.stdout
+    # ---- the same viewer where the source file cannot be found (saved file moved to another directory)
+    d0 = os.path.join(d, 'elsewhere')
+    os.makedirs(d0)
+    import shutil
+    shutil.copy(lprof, os.path.join(d0, 'moved.lprof'))
+    p0 = subprocess.run([sys.executable, '-m', 'line_profiler'] + vargs + ['moved.lprof'], capture_output=True, text=True, env=env, cwd=d0)
+    out['viewer_cli_nosource'] = p0.stdout
     out['prog_text'] = PROG % c['n']
     out['viewer_cli_err'] = p.stderr[-300:]
     # ---- a live profiler: print_stats vs dump/load vs show_text on the loaded data
